@@ -13,6 +13,7 @@ import re
 import featlib
 from featlib import Check, walk, render, is_call, rel
 import dfl
+import norm_c13 as norm
 from dfl import Resolver, short, strip_targs, last_comp, callee_name, is_nonconst_ref
 
 R = featlib.repo_path
@@ -796,53 +797,12 @@ def check_coherence(ck, facts):
 # clause 4b: mirror kernels only add; gather and scatter address the same (buffer, vector) cells
 # =====================================================================================================
 
-def canon(fn, n):
-    """rendering with locals renamed by declaration order (independent of local names)"""
-    order = {}
-    for x in fn.nodes():
-        if x.get("k") == "For" and x.get("init") is not None and x["init"].get("k") == "Decl" and len(x["init"].get("vars", [])) == 1:
-            c = x.get("c")
-            v = x["init"]["vars"][0]
-            if c is not None and c.get("k") == "Bin" and c.get("op") == "<" and c["lhs"].get("k") == "Ref" and c["lhs"].get("d") == v["d"]:
-                order[v["d"]] = "#" + render(c["rhs"])        # a loop variable is named after the extent it ranges over
-    for x in fn.nodes():
-        if x.get("k") == "Var" and x.get("d") not in order:
-            init = x.get("init")
-            # a const scalar local is replaced by its definition; any other local (e.g. a while-loop counter) is not understood
-            order[x["d"]] = ("=" + render(init)) if (x.get("const") and init is not None) else "?%s" % x.get("n")
-
-    def r(x):
-        k = x.get("k")
-        if k == "Ref":
-            return order.get(x.get("d"), x.get("n")) if x.get("dk") == "local" else x.get("n")
-        if k == "Index":
-            return "%s[%s]" % (r(x["b"]), r(x["idx"]))
-        if k == "Bin":
-            a, b = r(x["lhs"]), r(x["rhs"])
-            if x["op"] in ("+", "*") and b < a:
-                a, b = b, a
-            return "(%s%s%s)" % (a, x["op"], b)
-        if k == "Cast":
-            return r(x["e"])
-        if k in ("Construct", "TempObj") and len(x.get("a", [])) == 1:
-            return r(x["a"][0])
-        return render(x)
-    return r(n)
-
-
 def kernel_accesses(fn):
-    """[(array param name, canonical index, 'store'|'load', assignment op)] of a mirror kernel"""
-    pnames = {p["d"]: p["n"] for p in fn.params}
-    out = []
-    stores = set()
-    for n in fn.nodes():
-        if n.get("k") == "Assign" and n["lhs"].get("k") == "Index" and n["lhs"]["b"].get("k") == "Ref" and n["lhs"]["b"].get("d") in pnames:
-            out.append((pnames[n["lhs"]["b"]["d"]], canon(fn, n["lhs"]["idx"]), "store", n.get("op"), n))
-            stores.add(id(n["lhs"]))
-    for n in fn.nodes():
-        if n.get("k") == "Index" and id(n) not in stores and n["b"].get("k") == "Ref" and n["b"].get("d") in pnames:
-            out.append((pnames[n["b"]["d"]], canon(fn, n["idx"]), "load", None, n))
-    return out
+    """(KernelModel, [(array param name, normal form of the element offset, 'store'|'load', assignment op, node, rhs)]) of a mirror kernel.
+    Offsets are polynomials over the parameters and loop counters named after their extents; hoisted base pointers, running cursors,
+    const locals, for / while / pointer-range loops and std::fill / copy are resolved by norm_c13.KernelModel."""
+    km = norm.KernelModel(fn)
+    return km, km.accesses()
 
 
 def check_kernels(ck, facts):
@@ -872,45 +832,75 @@ def check_kernels(ck, facts):
             ck.incomplete("E5.scatter-kernel-additive", "scatter_%s_generic: parameter roles not recognised from the types (written arrays %s, read value arrays %s)" % (kind, outs, vals))
             continue
         out_arr, buf_arr = outs[0], vals[0]
-        acc = kernel_accesses(sc)
+        km, acc = kernel_accesses(sc)
         problems, unknown = [], []
         stores = [a for a in acc if a[2] == "store"]
         covered = set()
         if not stores:
             unknown.append((sc.line, "no element store found (the kernel writes through a construct that is not modelled)"))
-        for arr, ix, _, op, node in stores:
+
+        def named_value(x):
+            """look through casts and named temporaries (never-modified scalar locals)"""
+            for _ in range(8):
+                x = norm._strip(x)
+                if x is not None and x.get("k") == "Ref" and x.get("dk") == "local":
+                    v = km.vars.get(x["d"])
+                    if v is not None and v.get("init") is not None and not km.mods.get(x["d"]) and x["d"] not in km.ind and x["d"] not in km.addr_taken \
+                            and not sc.type(v.get("t")).strip().endswith("*"):
+                        x = v["init"]
+                        continue
+                break
+            return x
+
+        def opaque_locals(nodes):
+            """locals in an expanded expression whose value this rule does not know (assigned more than once, address taken ...)"""
+            return [x for x in nodes if x.get("k") == "Ref" and x.get("dk") == "local" and x["d"] not in km.ind and (km.mods.get(x["d"]) or x["d"] in km.addr_taken or
+                                                                                                                   (km.vars.get(x["d"]) or {}).get("init") is None)]
+        for arr, ix, _, op, node, rhs in stores:
             if arr != out_arr:
                 problems.append((node.get("l"), "scatter kernel writes array '%s' (only the vector values '%s' may be written)" % (arr, out_arr)))
                 continue
             contrib = None
             if op == "+=":
-                contrib = node["rhs"]
+                contrib = rhs
             elif op == "=":
-                r_ = node["rhs"]
-                while r_.get("k") == "Cast":
-                    r_ = r_["e"]
-                if r_.get("k") == "Bin" and r_.get("op") == "+":
+                r_ = named_value(rhs)
+                if r_ is not None and r_.get("k") == "Bin" and r_.get("op") == "+":
                     for x_, y_ in ((r_["lhs"], r_["rhs"]), (r_["rhs"], r_["lhs"])):
-                        if x_.get("k") == "Index" and x_["b"].get("k") == "Ref" and x_["b"].get("n") == out_arr and canon(sc, x_["idx"]) == ix:
+                        x_ = named_value(x_)
+                        ad = km.addr(x_) if x_ is not None and (x_.get("k") == "Index" or (x_.get("k") == "Un" and x_.get("op") == "*")) else None
+                        if ad is not None and ad[0] == out_arr and ad[1].key() == ix:
                             contrib = y_                      # v = v + c  ==  v += c
                             covered.add(id(x_))
                             break
                 if contrib is None:
-                    problems.append((node.get("l"), "store %s is a plain assignment: the value depends on the order in which neighbour buffers arrive" % render(node)[:70]))
+                    msg = "store %s is a plain assignment: the value depends on the order in which neighbour buffers arrive" % render(node)[:70]
+                    if rhs is not None and opaque_locals(km.expand(rhs)):
+                        unknown.append((node.get("l"), "store %s assigns a local that is computed by statements this rule does not model" % render(node)[:60]))
+                    else:
+                        problems.append((node.get("l"), msg))
                     continue
             else:
                 problems.append((node.get("l"), "store %s uses '%s' instead of an addition" % (render(node)[:60], op)))
                 continue
-            if any(x.get("k") == "Ref" and x.get("n") == out_arr for x in walk(contrib)):
+            cn = km.expand(contrib)
+            read_arrays = set()
+            for x in cn:
+                if x.get("k") == "Index" or (x.get("k") == "Un" and x.get("op") == "*"):
+                    ad = km.addr(x)
+                    if ad is not None:
+                        read_arrays.add(ad[0])
+            names_ = {x.get("n") for x in cn if x.get("k") == "Ref" and x.get("dk") == "param"}
+            if out_arr in read_arrays:
                 unknown.append((node.get("l"), "the added contribution %s reads the output array" % render(contrib)[:60]))
-            names_ = {x.get("n") for x in walk(contrib) if x.get("k") == "Ref"}
-            if buf_arr not in names_ or not (set(scal) & names_):
+            if buf_arr not in read_arrays or not (set(scal) & names_) or opaque_locals(cn):
                 unknown.append((node.get("l"), "contribution %s is not recognised as alpha*%s[...]" % (render(contrib)[:60], buf_arr)))
-        for arr, ix, what, op, node in acc:
+        for arr, ix, what, op, node, rhs in acc:
             if what == "load" and arr == out_arr and id(node) not in covered:
                 unknown.append((node.get("l"), "scatter kernel reads %s[%s] outside an addition into the same cell" % (arr, ix)))
         if "?" in "".join(a_[1] for a_ in acc):
-            unknown.append((sc.line, "loop structure of the kernel not recognised"))
+            unknown.append((sc.line, "an element address of the kernel is not understood (%s)" % ", ".join(sorted({"%s[%s]" % (a_[0], a_[1]) for a_ in acc if "?" in a_[1]}))[:120]))
+        unknown += km.notes
         if unknown and not problems:
             ck.incomplete("E5.scatter-kernel-additive", "scatter_%s_generic: %s" % (kind, "; ".join("line %s: %s" % u for u in unknown)[:400]))
         else:
@@ -918,20 +908,19 @@ def check_kernels(ck, facts):
                   "; ".join("line %s: %s" % p for p in problems) or "all %d stores add alpha*%s[...] into %s[...]; %s is not read otherwise" % (len(stores), buf_arr, out_arr, out_arr),
                   sc.file, problems[0][0] if problems else sc.line)
         # gather: only buf is written, by plain assignment
-        gacc = kernel_accesses(g)
+        gkm, gacc = kernel_accesses(g)
         gouts, gvals, gscal = roles(g)
         gp = []
-        if gouts != [buf_arr] and gouts:
-            pass
-        for arr, ix, what, op, node in gacc:
+        for arr, ix, what, op, node, rhs in gacc:
             if what == "store" and gouts and arr != gouts[0]:
                 gp.append((node.get("l"), "gather kernel writes array '%s'" % arr))
         # pair agreement: same buffer cells, same vector cells
         def cells(acc, arr):
-            return sorted({ix for a, ix, what, op, node in acc if a == arr})
+            return sorted({a_[1] for a_ in acc if a_[0] == arr})
         allforms = "".join(a_[1] for a_ in acc + gacc)
-        if "?" in allforms or len(gouts) != 1 or not gvals or gouts[0] != buf_arr or out_arr not in gvals:
-            ck.incomplete("E2.gather-scatter-agree", "{gather,scatter}_%s_generic: loop structure / parameter roles of the kernels not recognised" % kind)
+        if "?" in allforms or km.notes or gkm.notes or len(gouts) != 1 or not gvals or gouts[0] != buf_arr or out_arr not in gvals:
+            why = ["line %s: %s" % nt for nt in (km.notes + gkm.notes)] + sorted({"address %s[%s] not understood" % (a_[0], a_[1]) for a_ in acc + gacc if "?" in a_[1]})
+            ck.incomplete("E2.gather-scatter-agree", "{gather,scatter}_%s_generic: loop structure / parameter roles of the kernels not recognised%s" % (kind, (": " + "; ".join(why)[:300]) if why else ""))
             continue
         idx_arrays = sorted({a_[0] for a_ in acc + gacc} - {buf_arr, out_arr})
         for arr in [buf_arr, out_arr] + idx_arrays:
@@ -1376,109 +1365,112 @@ def check_gate(ck, facts, partial=False):
         if freqs_f is None:
             continue
         # ---- dot -----------------------------------------------------------------------------------
-        d = one("dot")
-        if d is not None and d.cfg is not None:
-            rs = Resolver(d)
-            cfg = d.cfg
-            px, py = d.params[0]["d"], d.params[1]["d"]
+        def gate_atom(f_, rs_):
+            """atom valuation for path conditions of a Gate member: E = no neighbours, N = no communicator, S = single process"""
+            is_comm = lambda x: x is not None and x.get("k") == "Member" and x.get("field") and "Comm" in f_.ntype(x)
 
-            def is_xy(a, b):
-                return a.get("k") == "Ref" and b.get("k") == "Ref" and {a.get("d"), b.get("d")} == {px, py}
-
-            def classify(e):
-                """'weighted' | 'summed' (global sum of the unweighted local dot) | 'local' (unweighted, no sum) | None"""
-                e = rs.value(e) if e is not None else e
-                inner, summed = e, False
-                if e is not None and e.get("k") == "MCall" and callee_name(e) == "sum" and len(e.get("a", [])) == 1 and (e.get("obj") is None or e["obj"].get("k") == "This"):
-                    inner, summed = rs.value(e["a"][0]), True
-                if inner is not None and inner.get("k") == "MCall" and callee_name(inner) == "triple_dot" and this_field(inner.get("obj")) == freqs_f \
-                        and len(inner.get("a", [])) == 2 and is_xy(*inner["a"]):
-                    return "weighted" if summed else None
-                if inner is not None and inner.get("k") == "MCall" and callee_name(inner) == "dot" and len(inner.get("a", [])) == 1 and is_xy(inner.get("obj") or {}, inner["a"][0]):
-                    return "summed" if summed else "local"
-                return None
-
-            def atom(c):
-                """(name, truth-of-condition-means) for E = no neighbours, N = no communicator, S = single process"""
-                pol = True
-                c = rs.value(c)
-                while c is not None and c.get("k") == "Un" and c.get("op") == "!":
-                    c, pol = rs.value(c["e"]), not pol
+            def atom(c, env):
+                val = lambda n_: norm.env_value(rs_, env, n_)
+                c = val(c)
                 if c is None:
                     return None
-                if c.get("k") == "MCall" and callee_name(c) == "empty" and this_field(c.get("obj")) == ranks_f:
-                    return ("E", pol)
-                is_comm = lambda x: x is not None and x.get("k") == "Member" and x.get("field") and "Comm" in d.ntype(x)
+                if c.get("k") == "MCall" and callee_name(c) == "empty" and this_field(val(c.get("obj"))) == ranks_f:
+                    return ("E", True)
                 if is_comm(c):
-                    return ("N", not pol)
+                    return ("N", False)
                 if c.get("k") == "Bin" and c.get("op") in ("==", "!="):
-                    l, r = rs.value(c["lhs"]), rs.value(c["rhs"])
+                    l, r = val(c["lhs"]), val(c["rhs"])
                     for u, v in ((l, r), (r, l)):
-                        if is_comm(u) and v.get("k") == "Null":
-                            return ("N", pol if c["op"] == "==" else not pol)
+                        if is_comm(u) and v is not None and v.get("k") == "Null":
+                            return ("N", c["op"] == "==")
                 if c.get("k") == "Bin" and c.get("op") in ("==", "!=", "<=", "<", ">", ">="):
-                    l, r = unwrap_val(rs, c["lhs"]), unwrap_val(rs, c["rhs"])
+                    l, r = unwrap_val(rs_, val(c["lhs"])), unwrap_val(rs_, val(c["rhs"]))
                     op = c["op"]
                     if r is not None and r.get("k") == "MCall" and l is not None and l.get("k") == "Int":
                         l, r, op = r, l, {"<": ">", ">": "<", "<=": ">=", ">=": "<="}.get(op, op)
-                    if l is not None and l.get("k") == "MCall" and callee_name(l) == "size" and is_comm(l.get("obj")) and r is not None and r.get("k") == "Int":
+                    if l is not None and l.get("k") == "MCall" and callee_name(l) == "size" and r is not None and r.get("k") == "Int":
                         k_ = int(r["v"])
-                        single = {("==", 1): True, ("!=", 1): False, ("<=", 1): True, ("<", 2): True, (">", 1): False, (">=", 2): False}.get((op, k_))
-                        if single is not None:
-                            return ("S", single if pol else not single)
+                        if is_comm(val(l.get("obj"))):
+                            single = {("==", 1): True, ("!=", 1): False, ("<=", 1): True, ("<", 2): True, (">", 1): False, (">=", 2): False}.get((op, k_))
+                            if single is not None:
+                                return ("S", single)
+                        elif this_field(val(l.get("obj"))) == ranks_f:
+                            empty = {("==", 0): True, ("!=", 0): False, ("<=", 0): True, ("<", 1): True, (">", 0): False, (">=", 1): False}.get((op, k_))
+                            if empty is not None:
+                                return ("E", empty)
                 return None
+            return atom
+
+        d = one("dot")
+        if d is not None and d.cfg is not None:
+            rs = Resolver(d)
+            px, py = d.params[0]["d"], d.params[1]["d"]
+            atom = gate_atom(d, rs)
+            resolve = lambda n_, env: norm.env_value(rs, env, n_)
+
+            def is_xy(a, b, env):
+                a, b = resolve(a, env), resolve(b, env)
+                return a is not None and b is not None and a.get("k") == "Ref" and b.get("k") == "Ref" and {a.get("d"), b.get("d")} == {px, py}
+
+            def leaves(e, cons, unk, env, summed=False, depth=0):
+                """[(cons, unknown-conditions, kind)] of a returned expression: conditional expressions are split by their atoms, sum(v) / sum_async(v).wait()
+                mark the value as globally summed; kind 'weighted' | 'summed' (global sum of the unweighted local dot) | 'local' (unweighted, no sum) | None"""
+                e = resolve(e, env) if e is not None else None
+                if e is None or depth > 12:
+                    return [(cons, unk, None)]
+                if e.get("k") == "Cond":
+                    f = norm.cond_formula(e["c"], atom, env, resolve)
+                    out_ = []
+                    if f is None:
+                        return leaves(e["then"], cons, True, env, summed, depth + 1) + leaves(e["else"], cons, True, env, summed, depth + 1)
+                    import itertools
+                    names = norm.formula_atoms(f)
+                    free = [a_ for a_ in names if a_ not in cons]
+                    seen_ = set()
+                    for vals in itertools.product((True, False), repeat=len(free)):
+                        val = dict(cons)
+                        val.update(zip(free, vals))
+                        br = "then" if norm.formula_eval(f, val) else "else"
+                        c2 = dict(cons, **{a_: val[a_] for a_ in names})
+                        k2 = (br, tuple(sorted(c2.items())))
+                        if k2 not in seen_:
+                            seen_.add(k2)
+                            out_ += leaves(e[br], c2, unk, env, summed, depth + 1)
+                    return out_
+                if e.get("k") == "MCall" and (e.get("obj") is None or e["obj"].get("k") == "This") and callee_name(e) == "sum" and len(e.get("a", [])) == 1 and not summed:
+                    return leaves(e["a"][0], cons, unk, env, True, depth + 1)
+                if e.get("k") == "MCall" and callee_name(e) == "wait" and not e.get("a") and not summed:
+                    o = resolve(e.get("obj"), env)
+                    if o is not None and o.get("k") == "MCall" and (o.get("obj") is None or o["obj"].get("k") == "This") and callee_name(o) == "sum_async" and o.get("a"):
+                        sq = unwrap_val(rs, o["a"][1]) if len(o["a"]) > 1 else None
+                        if sq is None or (sq.get("k") == "Bool" and not sq.get("v")):
+                            return leaves(o["a"][0], cons, unk, env, True, depth + 1)      # sum(v) is sum_async(v).wait() (E4.gate-reduction-op)
+                if e.get("k") == "MCall" and callee_name(e) == "triple_dot" and this_field(resolve(e.get("obj"), env)) == freqs_f and len(e.get("a", [])) == 2 and is_xy(e["a"][0], e["a"][1], env):
+                    return [(cons, unk, "weighted" if summed else None)]
+                if e.get("k") == "MCall" and callee_name(e) == "dot" and len(e.get("a", [])) == 1 and is_xy(e.get("obj") or {}, e["a"][0], env):
+                    return [(cons, unk, "summed" if summed else "local")]
+                return [(cons, unk, None)]
+
             problems, unknown = [], []
             weighted = 0
-            seen_ret = set()
-
-            def dfs(b, cons, unk, depth=0):
-                nonlocal weighted
-                if depth > 40:
-                    unknown.append("control flow too deep")
-                    return
-                blk = cfg.blocks[b]
-                for e in blk["el"]:
-                    n = fn_by_id(e)
-                    if n is not None and n.get("k") == "Return":
-                        kind = classify(n.get("e"))
-                        forced = lambda a_: cons.get(a_) is True
-                        if kind is None:
-                            unknown.append("return value %s not understood" % render(n.get("e"))[:70])
-                        elif kind == "weighted":
-                            if n["i"] not in seen_ret:
-                                weighted += 1
-                        else:
-                            ok_ = forced("N") or forced("S") or (kind == "summed" and forced("E"))
-                            if not ok_:
-                                msg = "returns the %s %s on a path where the process may have %s%s" % (
-                                    "unweighted" if kind == "summed" else "purely local", render(n.get("e"))[:50],
-                                    "neighbours: shared dofs are counted once per sharing process" if kind == "summed" or not forced("E") else "other processes: no global sum",
-                                    " (path conditions: %s)" % ", ".join("%s=%s" % kv for kv in sorted(cons.items())) if cons else "")
-                                (unknown if unk else problems).append(msg if unk else (n.get("l"), msg))
-                        seen_ret.add(n["i"])
-                        return
-                succ = blk.get("succ", [])
-                if blk.get("cond") is not None and len(succ) == 2:
-                    cnd = fn_by_id(blk["cond"])
-                    while cnd is not None and cnd.get("k") == "Bin" and cnd.get("op") in ("&&", "||"):
-                        cnd = cnd["rhs"]        # short-circuit operators are split by the CFG: this block tests the last operand
-                    at = atom(cnd)
-                    for k_, sb in enumerate(succ):
-                        if sb is None:
-                            continue
-                        if at is None:
-                            dfs(sb, cons, True, depth + 1)
-                        else:
-                            val = at[1] if k_ == 0 else (not at[1])
-                            if cons.get(at[0], val) != val:
-                                continue
-                            dfs(sb, dict(cons, **{at[0]: val}), unk, depth + 1)
-                else:
-                    for sb in succ:
-                        if sb is not None:
-                            dfs(sb, cons, unk, depth + 1)
-            fn_by_id = d.by_id
-            dfs(cfg.entry, {}, False)
+            for kind_, rn, cons0, unk0, env, state in norm.path_exits(d, atom, resolve=resolve):
+                if kind_ != "return":
+                    unknown.append("control flow of dot() not understood (%s)" % kind_)
+                    continue
+                for cons, unk, kind in leaves(rn.get("e"), cons0, unk0, env):
+                    forced = lambda a_: cons.get(a_) is True
+                    if kind is None:
+                        unknown.append("return value %s not understood" % render(rn.get("e"))[:70])
+                    elif kind == "weighted":
+                        weighted += 1
+                    else:
+                        ok_ = forced("N") or forced("S") or (kind == "summed" and forced("E"))
+                        if not ok_:
+                            msg = "returns the %s %s on a path where the process may have %s%s" % (
+                                "unweighted" if kind == "summed" else "purely local", render(rn.get("e"))[:50],
+                                "neighbours: shared dofs are counted once per sharing process" if kind == "summed" or not forced("E") else "other processes: no global sum",
+                                " (path conditions: %s)" % ", ".join("%s=%s" % kv for kv in sorted(cons.items())) if cons else "")
+                            (unknown if unk else problems).append(msg if unk else (rn.get("l"), msg))
             problems = list({p_[1]: p_ for p_ in problems}.values())
             if unknown and not problems:
                 ck.incomplete("E7.gate-dot", "%s::dot: %s" % (ck_, "; ".join(sorted(set(map(str, unknown))))[:400]))
@@ -1490,132 +1482,318 @@ def check_gate(ck, facts, partial=False):
                       d.file, problems[0][0] if problems else d.line)
         da = one("dot_async")
         if da is not None:
+            rsa = Resolver(da)
             rets = [n for n in walk(da.body) if n.get("k") == "Return"]
-            ok = len(rets) == 1
-            if ok:
-                e = rets[0]["e"]
-                ok = e is not None and e.get("k") == "MCall" and callee_name(e) == "sum_async" and len(e.get("a", [])) >= 1
-                if ok:
-                    t = e["a"][0]
-                    ok = t.get("k") == "MCall" and callee_name(t) == "triple_dot" and this_field(t.get("obj")) == freqs_f and len(t["a"]) == 2 and \
-                        {t["a"][0].get("d"), t["a"][1].get("d")} == {da.params[0]["d"], da.params[1]["d"]}
-                    sq = e["a"][1] if len(e["a"]) > 1 else None
-                    ok = ok and sq is not None and sq.get("k") == "Ref" and sq.get("d") == da.params[2]["d"]
-            ck.ob("E7.gate-dot", ck_ + "::dot_async", ok, "returns sum_async(%s.triple_dot(x, y), sqrt)" % freqs_f if ok else
-                  "dot_async does not return sum_async(%s.triple_dot(x, y), sqrt): %s" % (freqs_f, render(rets[0].get("e")) if rets else "?"), da.file, da.line)
+            bad, unk_ = [], []
+            if len(rets) != 1:
+                unk_.append("%d return statements" % len(rets))
+            else:
+                e = unwrap_val(rsa, rets[0].get("e"))
+                if not (e is not None and e.get("k") == "MCall" and callee_name(e) == "sum_async" and (e.get("obj") is None or e["obj"].get("k") == "This") and len(e.get("a", [])) >= 1):
+                    unk_.append("return value %s is not sum_async(...) of this gate" % render(e)[:60])
+                else:
+                    t = unwrap_val(rsa, e["a"][0])
+                    if t is not None and t.get("k") == "MCall" and callee_name(t) == "dot" and len(t.get("a", [])) == 1:
+                        bad.append("the local contribution %s is the unweighted dot product: shared dofs are counted once per sharing process" % render(t)[:50])
+                    elif not (t is not None and t.get("k") == "MCall" and callee_name(t) == "triple_dot" and this_field(rsa.value(t.get("obj"))) == freqs_f and len(t["a"]) == 2):
+                        unk_.append("local contribution %s not understood" % render(t)[:60])
+                    else:
+                        ds_ = {(rsa.value(t["a"][0]) or {}).get("d"), (rsa.value(t["a"][1]) or {}).get("d")}
+                        if ds_ != {da.params[0]["d"], da.params[1]["d"]}:
+                            (bad if ds_ <= {da.params[0]["d"], da.params[1]["d"]} else unk_).append("triple_dot operands %s, expected (x, y)" % render(t)[:50])
+                    sq = rsa.value(e["a"][1]) if len(e["a"]) > 1 else None
+                    if not (sq is not None and sq.get("k") == "Ref" and sq.get("d") == da.params[2]["d"]):
+                        (bad if sq is None or sq.get("k") == "Bool" else unk_).append("sqrt flag %s is not the parameter '%s'" % (render(sq) if sq is not None else "(default)", da.params[2]["n"]))
+            if unk_ and not bad:
+                ck.incomplete("E7.gate-dot", "%s::dot_async: %s" % (ck_, "; ".join(unk_)[:300]))
+            else:
+                ck.ob("E7.gate-dot", ck_ + "::dot_async", not bad, "returns sum_async(%s.triple_dot(x, y), sqrt)" % freqs_f if not bad else
+                      "dot_async does not return sum_async(%s.triple_dot(x, y), sqrt): %s" % (freqs_f, "; ".join(bad)), da.file, da.line)
         # ---- reductions: operation / sqrt parity -------------------------------------------------------
         for name, (op, sq) in OPS.items():
             f = one(name)
             if f is None:
                 continue
-            rs = Resolver(f)
-            rets = [n for n in walk(f.body) if n.get("k") == "Return"]
-            cons = [c for r_ in rets for c in walk(r_.get("e")) if c.get("k") in ("Construct", "TempObj") and strip_targs(c.get("ccls", "")) == "FEAT::Global::SynchScalarTicket" and len(c.get("a", [])) == 4]
-            ok = len(cons) == 1
-            detail = ""
-            if ok:
-                a = {pn: x for x, pn, pt in dfl.call_args_with_params(cons[0], f)}
-                opn = a.get("op")
-                opname = (opn.get("qn") or opn.get("n") or "") if opn is not None and opn.get("k") == "Ref" else ""
-                if not re.search(r"op_\w+$", opname):
-                    ck.incomplete("E4.gate-reduction-op", "%s::%s: reduction operation %s not understood" % (ck_, name, render(opn)))
-                    continue
-                if not opname.endswith(op):
-                    ok = False
-                    detail += "reduction operation %s, expected Dist::%s; " % (render(opn), op)
-                sqn = a.get("sqrt")
-                if sq is None:
-                    if not (sqn is not None and sqn.get("k") == "Ref" and sqn.get("dk") == "param"):
-                        ok = False
-                        detail += "sqrt flag %s is not passed through; " % render(sqn)
-                elif not (sqn is not None and sqn.get("k") == "Bool" and bool(sqn.get("v")) == sq):
-                    ok = False
-                    detail += "sqrt flag %s, expected %s; " % (render(sqn), sq)
-                xv = a.get("x")
-                if name == "norm2_async":
-                    if not (xv is not None and xv.get("k") == "Bin" and xv.get("op") == "*" and xv["lhs"].get("d") == f.params[0]["d"] and xv["rhs"].get("d") == f.params[0]["d"]):
-                        ok = False
-                        detail += "summand %s, expected x*x; " % render(xv)
-                elif not (xv is not None and xv.get("k") == "Ref" and xv.get("d") == f.params[0]["d"]):
-                    ok = False
-                    detail += "summand %s, expected x; " % render(xv)
-            else:
-                ck.incomplete("E4.gate-reduction-op", "%s::%s: %d direct SynchScalarTicket constructions in the return value (delegation not modelled)" % (ck_, name, len(cons)))
+            tr, why = reduction_of(fns, f)
+            if tr is None:
+                ck.incomplete("E4.gate-reduction-op", "%s::%s: %s" % (ck_, name, why))
                 continue
-            ck.ob("E4.gate-reduction-op", "%s::%s" % (ck_, name), ok, detail or "SynchScalarTicket(%s, comm, Dist::%s, sqrt=%s)" % ("x*x" if name == "norm2_async" else "x", op, "param" if sq is None else sq), f.file, f.line)
+            want = ("x*x" if name == "norm2_async" else "x", op, "param" if sq is None else sq)
+            detail = []
+            if tr[0] != want[0]:
+                detail.append("summand %s, expected %s" % (tr[0], want[0]))
+            if tr[1] != want[1]:
+                detail.append("reduction operation Dist::%s, expected Dist::%s" % (tr[1], want[1]))
+            if tr[2] != want[2]:
+                detail.append("sqrt flag %s, expected %s" % (tr[2] if tr[2] != "param" else "passed through", "passed through from the parameter" if want[2] == "param" else want[2]))
+            ck.ob("E4.gate-reduction-op", "%s::%s" % (ck_, name), not detail, "; ".join(detail) or "SynchScalarTicket(%s, comm, Dist::%s, sqrt=%s)" % want, f.file, f.line)
         # ---- from_1_to_0 and the sync functions --------------------------------------------------------
+        def is_freqs(rs_, n_):
+            n_ = rs_.value(n_) if n_ is not None else None
+            st_ = rs_.path(n_).steps if n_ is not None else ()
+            if len(st_) == 2 and st_[0] == ("this",) and st_[1] == ("field", freqs_f):
+                return True
+            return len(st_) == 2 and st_[0] == ("this",) and st_[1][0] == "call" and st_[1][1] == "get_freqs"
+
         f10 = one("from_1_to_0")
         if f10 is not None:
+            rs10 = Resolver(f10)
+            vp = dfl.Path((("param", f10.params[0]["d"]),))
             cps = [c for c in calls_of(f10) if c.get("k") == "MCall" and callee_name(c) == "component_product"]
-            ok = len(cps) == 1
-            if ok:
-                c = cps[0]
-                vd = f10.params[0]["d"]
-                ok = (c.get("obj") or {}).get("d") == vd and len(c["a"]) == 2 and sorted([("p" if x.get("d") == vd else this_field(x)) for x in c["a"]], key=str) == sorted(["p", freqs_f], key=str)
-            if not ok and (len(cps) != 1 or len(cps[0].get("a", [])) != 2):
-                ck.incomplete("E7.gate-discipline", "%s::from_1_to_0: %d component_product calls (the scaling is done by a construct that is not modelled)" % (ck_, len(cps)))
+            others = [u for u in dfl.unmodelled_mutable_uses(f10, rs10, vp, modelled=("component_product",))]
+            bad, unk_ = [], []
+            if len(cps) > 1:
+                bad.append("%d component_product calls: the vector is scaled by the frequencies more than once" % len(cps))
+            elif len(cps) == 0:
+                (unk_ if (others or [c for c in calls_of(f10) if c.get("k") == "MCall" and (c.get("obj") is None or c["obj"].get("k") == "This") and not c.get("cconst")]) else bad).append(
+                    "no component_product with the frequencies" + (" (the vector is handed to %s, which is not modelled)" % render(others[0])[:50] if others else ""))
             else:
-                ck.ob("E7.gate-discipline", ck_ + "::from_1_to_0", ok, "vector <- vector (*) %s, once" % freqs_f if ok else
-                      "from_1_to_0 must be exactly vector.component_product(vector, %s), found %s" % (freqs_f, render(cps[0])[:70]), f10.file, f10.line)
-        for name in ("sync_0", "sync_1", "sync_0_async", "sync_1_async"):
+                c = cps[0]
+                if others:
+                    unk_.append("the vector is also handed to %s, which is not modelled" % render(others[0])[:50])
+                if rs10.path(c.get("obj")) != vp:
+                    (bad if is_freqs(rs10, c.get("obj")) else unk_).append("the product is stored in %s, not in the vector parameter" % render(c.get("obj")))
+                if len(c.get("a", [])) != 2:
+                    unk_.append("component_product with %d arguments" % len(c.get("a", [])))
+                else:
+                    kinds = sorted("p" if rs10.path(x) == vp else ("f" if is_freqs(rs10, x) else "?") for x in c["a"])
+                    if kinds != ["f", "p"]:
+                        (unk_ if "?" in kinds else bad).append("factors %s, expected the vector and %s once each" % (render(c)[:60], freqs_f))
+            if unk_ and not bad:
+                ck.incomplete("E7.gate-discipline", "%s::from_1_to_0: %s" % (ck_, "; ".join(unk_)[:300]))
+            else:
+                ck.ob("E7.gate-discipline", ck_ + "::from_1_to_0", not bad, "vector <- vector (*) %s, once" % freqs_f if not bad else
+                      "from_1_to_0 must be exactly vector.component_product(vector, %s): %s" % (freqs_f, "; ".join(bad)), f10.file, f10.line)
+        SYNC = ("sync_0", "sync_1", "sync_0_async", "sync_1_async")
+        for name in SYNC:
             f = one(name)
-            if f is None:
+            if f is None or f.cfg is None:
                 continue
             rs = Resolver(f)
-            cfg = f.cfg
             vd = f.params[0]["d"]
-            cons = [c for c in calls_of(f) if c.get("k") in ("Construct", "TempObj") and strip_targs(c.get("ccls", "")) == "FEAT::Global::SynchVectorTicket" and len(c.get("a", [])) == 4]
+            vp = dfl.Path((("param", vd),))
+            is_async = name.endswith("_async")
+            want_scale = 1 if "sync_1" in name else 0
+            atom = gate_atom(f, rs)
+            resolve = lambda n_, env, rs=rs: norm.env_value(rs, env, n_)
+            doubts = []
             problems = []
-            if len(cons) != 1:
-                deleg = [c for c in calls_of(f) if c.get("k") == "MCall" and callee_name(c) == "wait" and (c.get("obj") or {}).get("k") == "MCall"
-                         and callee_name(c["obj"]) == name + "_async" and c["obj"].get("a") and c["obj"]["a"][0].get("d") == vd]
-                if len(cons) == 0 and len(deleg) == 1 and not name.endswith("_async"):
-                    ck.ob("E7.gate-discipline", "%s::%s" % (ck_, name), True, "delegates to %s_async(vector).wait() (checked separately)" % name, f.file, f.line)
-                else:
-                    ck.incomplete("E7.gate-discipline", "%s::%s: %d direct constructions of a posting SynchVectorTicket (delegation / helper not modelled)" % (ck_, name, len(cons)))
-                continue
-            for c in cons:
-                a = {pn: x for x, pn, pt in dfl.call_args_with_params(c, f)}
-                unk_ = []
-                tp = rs.path(a.get("target")).steps if a.get("target") is not None else ()
-                if tp != (("param", vd),):
-                    (problems if (tp and tp[0][0] in ("param", "this")) else unk_).append("ticket target %s is not the vector parameter" % render(a.get("target")))
-                for slot_, want_ in (("ranks", ranks_f), ("mirrors", mirrors_f)):
-                    sp_ = rs.path(a.get(slot_)).steps if a.get(slot_) is not None else ()
-                    got_ = sp_[1][1] if len(sp_) == 2 and sp_[0] == ("this",) and sp_[1][0] == "field" else None
-                    if got_ != want_:
-                        (problems if got_ is not None else unk_).append("ticket %s %s, expected %s" % (slot_, render(a.get(slot_)), want_))
-                if unk_ and not problems:
-                    ck.incomplete("E7.gate-discipline", "%s::%s: %s (not understood)" % (ck_, name, "; ".join(unk_)))
-                    problems = None
-                    break
-                conv = [m for m in calls_of(f) if m.get("k") == "MCall" and callee_name(m) == "from_1_to_0"]
-                if "sync_1" in name:
-                    if not (len(conv) == 1 and conv[0].get("a") and conv[0]["a"][0].get("d") == vd and cfg.stmt_dominates(conv[0]["i"], c["i"])):
-                        problems.append("a type-1 synchronisation must scale by the frequencies (from_1_to_0(vector)) exactly once before the exchange")
-                elif conv:
-                    problems.append("a type-0 synchronisation must not scale by the frequencies")
-                if not name.endswith("_async"):
-                    pr = dfl.parents(f).get(id(c))
-                    var = pr[0] if pr and pr[0].get("k") == "Var" else None
-                    if var is None:
-                        pw = pr[0] if pr else None
-                        if not (pw is not None and pw.get("k") == "MCall" and callee_name(pw) == "wait"):
-                            ck.incomplete("E7.gate-discipline", "%s::%s: the ticket is neither a named local nor waited for directly (%s)" % (ck_, name, render(pw)[:50] if pw else "?"))
-                            problems = None
-                            break
+
+            def source_of(n, rs=rs, f=f, name=name):
+                """('ticket'|'blocking', scaling done inside, node) if n starts an exchange of the vector parameter: a posting SynchVectorTicket built here, or the
+                sibling sync_K[_async](vector) of this gate (whose own instance of this rule decides what it does); 'bad' text if it is a wrong exchange; else None"""
+                if n.get("k") in ("Construct", "TempObj") and strip_targs(n.get("ccls", "")) == "FEAT::Global::SynchVectorTicket" and len(n.get("a", [])) == 4:
+                    a = {pn: x for x, pn, pt in dfl.call_args_with_params(n, f)}
+                    bad_, unk_ = [], []
+                    tp = rs.path(a.get("target")).steps if a.get("target") is not None else ()
+                    if tp != (("param", vd),):
+                        (bad_ if (tp and tp[0][0] in ("param", "this")) else unk_).append("ticket target %s is not the vector parameter" % render(a.get("target")))
+                    for slot_, want_ in (("ranks", ranks_f), ("mirrors", mirrors_f)):
+                        sp_ = rs.path(a.get(slot_)).steps if a.get(slot_) is not None else ()
+                        got_ = sp_[1][1] if len(sp_) == 2 and sp_[0] == ("this",) and sp_[1][0] == "field" else None
+                        if got_ != want_:
+                            (bad_ if got_ is not None else unk_).append("ticket %s %s, expected %s" % (slot_, render(a.get(slot_)), want_))
+                    if bad_:
+                        return ("bad", "; ".join(bad_), n)
+                    if unk_:
+                        return ("unknown", "; ".join(unk_), n)
+                    return ("ticket", 0, n)
+                if n.get("k") == "MCall" and (n.get("obj") is None or n["obj"].get("k") == "This") and callee_name(n) in SYNC and callee_name(n) != name and len(n.get("a", [])) == 1:
+                    if rs.path(n["a"][0]) != vp:
+                        return ("unknown", "%s is applied to %s, not to the vector parameter" % (callee_name(n), render(n["a"][0])), n)
+                    sib = callee_name(n)
+                    return ("ticket" if sib.endswith("_async") else "blocking", 1 if "sync_1" in sib else 0, n)
+                return None
+
+            def on_stmt(n, cons, env, st, rs=rs, f=f):
+                # st = (scalings so far, exchanges [(kind, scale, node, scalings before)], waited ticket nodes, scalings after an exchange)
+                st = st or (0, (), (), 0)
+                if not is_call(n):
+                    return st
+                src = source_of(n)
+                if src is not None:
+                    if src[0] in ("bad", "unknown"):
+                        (problems if src[0] == "bad" else doubts).append((n.get("l"), src[1]))
+                        return (st[0], st[1] + (("ticket", 0, n, st[0]),), st[2], st[3])
+                    return (st[0], st[1] + ((src[0], src[1], n, st[0]),), st[2], st[3])
+                if n.get("k") == "MCall" and (n.get("obj") is None or n["obj"].get("k") == "This") and callee_name(n) == "from_1_to_0" and n.get("a"):
+                    if rs.path(n["a"][0]) != vp:
+                        doubts.append((n.get("l"), "from_1_to_0 applied to %s" % render(n["a"][0])))
+                        return st
+                    return (st[0] + 1, st[1], st[2], st[3] + (1 if st[1] else 0))
+                if n.get("k") == "MCall" and callee_name(n) == "wait" and strip_targs(n.get("ccls", "")) == "FEAT::Global::SynchVectorTicket":
+                    o = n.get("obj")
+                    tgt = None
+                    if o is not None and o.get("k") == "Ref" and o.get("dk") == "local":
+                        tgt = norm._strip(resolve(env.get(o["d"]), env)) if o["d"] in env else None
+                        while tgt is not None and tgt.get("k") in ("Construct", "TempObj") and len(tgt.get("a", [])) == 1:
+                            tgt = norm._strip(resolve(tgt["a"][0], env))
                     else:
-                        if not dfl.after_on_all_paths(f, c, lambda m, var=var: m.get("k") == "MCall" and callee_name(m) == "wait" and (m.get("obj") or {}).get("d") == var["d"]):
-                            elsewhere = dfl.unmodelled_mutable_uses(f, rs, dfl.Path((("local", var["d"]),)), modelled=("wait",))
-                            if elsewhere:
-                                ck.incomplete("E7.gate-discipline", "%s::%s: the ticket is handed to %s, which is not modelled and may wait for it" % (ck_, name, render(elsewhere[0])[:50]))
-                                problems = None
-                                break
-                            problems.append("ticket.wait() is not called on every path after the exchange was started")
-            if problems is None:
+                        tgt = norm._strip(resolve(o, env)) if o is not None else None
+                    hit = [x for x in st[1] if x[2] is tgt]
+                    if hit:
+                        return (st[0], st[1], st[2] + (tgt["i"],), st[3])
+                    doubts.append((n.get("l"), "wait() on %s, which is not recognised as the ticket of the exchange" % render(o)[:40]))
+                    return st
+                # anything else that may touch the vector or a ticket
+                if n.get("callee") in dfl.MOVE_FNS or n.get("callee") == "FEAT::assertion" or n.get("cconst"):
+                    return st
+                if n.get("k") in ("Construct", "TempObj") and strip_targs(n.get("ccls", "")) == "FEAT::Global::SynchVectorTicket":
+                    return st           # empty / moved ticket objects
+                for a_, pn_, pt_ in dfl.call_args_with_params(n, f):
+                    if pt_ is not None and is_nonconst_ref(pt_) and rs.path(a_).startswith(vp):
+                        doubts.append((n.get("l"), "the vector is handed to %s, which is not modelled" % render(n)[:50]))
+                if n.get("k") == "MCall" and (n.get("obj") is None or n["obj"].get("k") == "This") and not n.get("cconst"):
+                    doubts.append((n.get("l"), "member helper %s is not modelled" % render(n)[:50]))
+                return st
+
+            n_ex = 0
+            for kind_, rn, cons, unk, env, st in norm.path_exits(f, atom, on_stmt=on_stmt, resolve=resolve):
+                st = st or (0, (), (), 0)
+                if kind_ == "overflow":
+                    doubts.append((f.line, "control flow too large"))
+                    continue
+                where = rn.get("l") if rn is not None else f.end
+                if cons.get("E") is True:
+                    continue        # no neighbours: nothing to exchange (from_1_to_0 is a no-op there as well)
+                pc = " (path conditions: %s)" % ", ".join("%s=%s" % kv for kv in sorted(cons.items())) if cons else ""
+                sink = doubts if unk else problems
+                if len(st[1]) == 0:
+                    sink.append((where, "a path on which the process may have neighbours ends without starting the exchange%s" % pc))
+                    continue
+                if len(st[1]) > 1:
+                    sink.append((where, "%d exchanges of the vector on one path%s" % (len(st[1]), pc)))
+                    continue
+                n_ex += 1
+                kind, inner, node, before = st[1][0]
+                total = before + inner
+                if st[3]:
+                    sink.append((where, "the vector is scaled by the frequencies after the exchange was started"))
+                if total != want_scale:
+                    sink.append((where, ("a type-1 synchronisation must scale by the frequencies (from_1_to_0(vector)) exactly once before the exchange" if want_scale else
+                                         "a type-0 synchronisation must not scale by the frequencies") + " (found %d scaling(s): %d here%s)%s" % (
+                                             total, before, ", %d inside %s" % (inner, callee_name(node)) if node.get("k") == "MCall" else "", pc)))
+                if not is_async:
+                    if kind == "ticket" and node["i"] not in st[2]:
+                        sink.append((where, "ticket.wait() is not called on every path after the exchange was started%s" % pc))
+                else:
+                    if kind != "ticket":
+                        sink.append((where, "the asynchronous form completes the exchange itself (%s)" % callee_name(node)))
+                    rv = norm._strip(resolve(rn.get("e"), env)) if rn is not None and rn.get("e") is not None else None
+                    while rv is not None and rv is not node and rv.get("k") in ("Construct", "TempObj") and len(rv.get("a", [])) == 1:
+                        rv = norm._strip(resolve(rv["a"][0], env))
+                    if rv is not node:
+                        doubts.append((where, "the returned ticket %s is not recognised as the ticket of the exchange" % (render(rn.get("e"))[:40] if rn is not None else "?")))
+            uniq = list({p_[1]: p_ for p_ in problems}.values())
+            if doubts and not uniq:
+                ck.incomplete("E7.gate-discipline", "%s::%s: %s" % (ck_, name, "; ".join(sorted({"line %s: %s" % d_ for d_ in doubts}))[:400]))
                 continue
-            ck.ob("E7.gate-discipline", "%s::%s" % (ck_, name), not problems, "; ".join(problems) or
-                  "%sSynchVectorTicket(vector, comm, %s, %s)%s" % ("from_1_to_0(vector); " if "sync_1" in name else "", ranks_f, mirrors_f, "" if name.endswith("_async") else "; wait()"), f.file, f.line)
+            ck.ob("E7.gate-discipline", "%s::%s" % (ck_, name), not uniq, "; ".join("line %s: %s" % p_ for p_ in uniq) or
+                  "whenever the process may have neighbours: %sexactly one exchange of the vector (SynchVectorTicket(vector, comm, %s, %s) or the sibling sync function)%s" % (
+                      "from_1_to_0(vector) once, then " if want_scale else "no scaling, ", ranks_f, mirrors_f, "" if is_async else "; wait()"), f.file, uniq[0][0] if uniq else f.line)
+
+
+def reduction_of(fns, f, depth=0):
+    """((summand 'x' | 'x*x', operation name, sqrt 'param' | True | False), None) of a Gate reduction member in terms of its own first parameter, following
+    sibling reductions of the same gate (one overload forwarding to another);  (None, reason) if the form is not understood.
+    Forms: SynchScalarTicket(S, comm, Dist::op, sqrt) · sibling_async(S[, sqrt]) · T.wait() · sibling(S) · Math::sqrt(V)"""
+    if depth > 3:
+        return None, "forwarding chain too deep"
+    rs = Resolver(f)
+    assigned = dfl.assigned_decls(f)
+    rets = [n for n in walk(f.body) if n.get("k") == "Return"]
+    if len(rets) != 1 or rets[0].get("e") is None:
+        return None, "%d return statements" % len(rets)
+    xd = f.params[0]["d"]
+    sqd = f.params[1]["d"] if len(f.params) > 1 else None
+
+    def look(n):
+        """through casts, single-argument copies and never-reassigned locals (named tickets / temporaries)"""
+        for _ in range(12):
+            n = unwrap_val(rs, n) if n is not None else None
+            if n is not None and n.get("k") == "Ref" and n.get("dk") == "local" and n["d"] not in assigned:
+                v = rs.var(n["d"])
+                if v is not None and not v.get("ref") and v.get("init") is not None:
+                    n = v["init"]
+                    continue
+            break
+        return n
+
+    def summand(n):
+        n = look(n)
+        if n is not None and n.get("k") == "Ref" and n.get("d") == xd:
+            return "x"
+        if n is not None and n.get("k") == "Bin" and n.get("op") == "*" and summand(n["lhs"]) == "x" and summand(n["rhs"]) == "x":
+            return "x*x"
+        if n is not None and n.get("k") == "Call" and strip_targs(n.get("callee", "")) in ("FEAT::Math::sqr",) and len(n.get("a", [])) == 1 and summand(n["a"][0]) == "x":
+            return "x*x"
+        return None
+
+    def flag(n):
+        n = look(n)
+        if n is None:
+            return None
+        if n.get("k") == "Bool":
+            return bool(n.get("v"))
+        if n.get("k") == "Ref" and n.get("d") == sqd and sqd is not None:
+            return "param"
+        return None
+
+    def sibling(n):
+        if n.get("k") == "MCall" and (n.get("obj") is None or n["obj"].get("k") == "This") and n.get("a"):
+            c = [g for g in fns.get(callee_name(n), []) if g is not f]
+            if len(c) == 1 and callee_name(n) in ("sum", "min", "max", "norm2", "sum_async", "min_async", "max_async", "norm2_async"):
+                return c[0]
+        return None
+
+    def compose(g, call):
+        tr, why = reduction_of(fns, g, depth + 1)
+        if tr is None:
+            return None, "%s: %s" % (callee_name(call), why)
+        s_ = summand(call["a"][0])
+        if s_ is None:
+            return None, "argument %s of %s not understood" % (render(call["a"][0])[:40], callee_name(call))
+        if tr[0] == "x*x" and s_ != "x":
+            return None, "higher powers (%s of %s)" % (callee_name(call), s_)
+        sq = tr[2]
+        if sq == "param":
+            sq = flag(call["a"][1]) if len(call.get("a", [])) > 1 else None
+            if sq is None:
+                return None, "sqrt argument of %s not understood" % render(call)[:50]
+        return (s_ if tr[0] == "x" else "x*x", tr[1], sq), None
+
+    def of(n):
+        n = look(n)
+        if n is None:
+            return None, "empty return value"
+        if n.get("k") in ("Construct", "TempObj") and strip_targs(n.get("ccls", "")) == "FEAT::Global::SynchScalarTicket" and len(n.get("a", [])) == 4:
+            a = {pn: x for x, pn, pt in dfl.call_args_with_params(n, f)}
+            opn = look(a.get("op"))
+            opname = (opn.get("qn") or opn.get("n") or "") if opn is not None and opn.get("k") == "Ref" else ""
+            m = re.search(r"(op_\w+)$", opname)
+            s_, sq = summand(a.get("x")), flag(a.get("sqrt"))
+            if not m or s_ is None or sq is None:
+                return None, "arguments of %s not understood" % render(n)[:70]
+            return (s_, m.group(1), sq), None
+        if n.get("k") == "MCall" and callee_name(n) == "wait" and not n.get("a") and strip_targs(n.get("ccls", "")) == "FEAT::Global::SynchScalarTicket":
+            return of(n.get("obj"))
+        g = sibling(n)
+        if g is not None:
+            return compose(g, n)
+        if n.get("k") == "Call" and strip_targs(n.get("callee", "")) == "FEAT::Math::sqrt" and len(n.get("a", [])) == 1:
+            tr, why = of(n["a"][0])
+            if tr is None:
+                return None, why
+            if tr[2] is not False or tr[1] != "op_sum":
+                return None, "sqrt of %s" % render(n["a"][0])[:40]
+            return (tr[0], tr[1], True), None
+        return None, "return value %s is not a SynchScalarTicket construction, a sibling reduction of this gate or a wait() on one (delegation not modelled)" % render(n)[:60]
+    # nothing else in the function may take part in the reduction
+    extra = [c for c in calls_of(f) if c.get("k") in ("Construct", "TempObj") and strip_targs(c.get("ccls", "")) == "FEAT::Global::SynchScalarTicket" and len(c.get("a", [])) == 4]
+    sibs = [c for c in calls_of(f) if sibling(c) is not None]
+    if len(extra) + len(sibs) != 1:
+        return None, "%d ticket constructions and %d sibling reductions in one function (expected exactly one reduction)" % (len(extra), len(sibs))
+    return of(rets[0]["e"])
 
 
 def check_reductions(ck, facts, partial=False):
@@ -1626,20 +1804,20 @@ def check_reductions(ck, facts, partial=False):
             continue
         cls = strip_targs(fn.cls)
         if cls == "FEAT::Global::Gate" and fn.name in ("sum", "min", "max", "norm2"):
-            rets = [n for n in walk(fn.body) if n.get("k") == "Return"]
-            e = rets[0].get("e") if len(rets) == 1 else None
-            ok = e is not None and e.get("k") == "MCall" and callee_name(e) == "wait" and (e.get("obj") or {}).get("k") == "MCall" and callee_name(e["obj"]) == fn.name + "_async" \
-                and e["obj"].get("a") and e["obj"]["a"][0].get("k") == "Ref" and e["obj"]["a"][0].get("d") == fn.params[0]["d"]
-            if ok and fn.name == "sum" and len(e["obj"]["a"]) > 1:
-                sq = e["obj"]["a"][1]
-                ok = sq.get("k") == "Bool" and not sq.get("v")
-            if not ok:
-                asyncs = [c for c in calls_of(fn) if c.get("k") == "MCall" and callee_name(c).endswith("_async")]
-                wrong = [c for c in asyncs if callee_name(c) != fn.name + "_async"]
-                if not wrong:
-                    ck.incomplete("E4.gate-reduction-op", "%s::%s: return value %s is not of the modelled form %s_async(x).wait()" % (ckey(fn.cls), fn.name, render(e)[:60] if e is not None else "?", fn.name))
-                    continue
-            ck.ob("E4.gate-reduction-op", "%s::%s" % (ckey(fn.cls), fn.name), ok, "returns %s" % render(e) if e is not None else "no single return", fn.file, fn.line)
+            fns_ = {}
+            for g_ in facts.functions:
+                if g_.cls == fn.cls and g_.tk != "pattern":
+                    fns_.setdefault(g_.name, []).append(g_)
+            tr, why = reduction_of(fns_, fn)
+            if tr is None:
+                ck.incomplete("E4.gate-reduction-op", "%s::%s: %s" % (ckey(fn.cls), fn.name, why))
+                continue
+            want = {"sum": ("x", "op_sum", False), "min": ("x", "op_min", False), "max": ("x", "op_max", False), "norm2": ("x*x", "op_sum", True)}[fn.name]
+            if tr[2] == "param":
+                tr = (tr[0], tr[1], False)         # the blocking forms have no sqrt parameter: an omitted argument is the documented default (false)
+            detail = [t_ % (a_, b_) for t_, a_, b_ in (("summand %s, expected %s", tr[0], want[0]), ("reduction operation Dist::%s, expected Dist::%s", tr[1], want[1]),
+                                                       ("sqrt flag %s, expected %s", tr[2], want[2])) if a_ != b_]
+            ck.ob("E4.gate-reduction-op", "%s::%s" % (ckey(fn.cls), fn.name), not detail, "; ".join(detail) or "waits for the reduction (%s, Dist::%s, sqrt=%s)" % want, fn.file, fn.line)
         m = re.match(r"(max|min)(_abs)?_element(_async)?$", fn.name or "")
         if cls == "FEAT::Global::Vector" and m:
             want_gate = m.group(1) + ("_async" if m.group(3) else "")
